@@ -124,6 +124,12 @@ Theorem critical_sections_capture_exceptions :
   gen_critical_capture = true /\ Gen.GenParLoops_clang.gen_critical_capture = true /\ Gen.GenParLoops_apple.gen_critical_capture = true.
 Proof. repeat split; reflexivity. Qed.
 
+(* no noexcept boundary (noexcept function or destructor containing .at( / om_assert / throw) below the loop bodies:
+   an exception raised by the accessors the bodies call can reach ThreadException::Run *)
+Theorem no_throwing_noexcept_below_the_loops :
+  gen_throwing_noexcept = 0%nat /\ Gen.GenParLoops_clang.gen_throwing_noexcept = 0%nat /\ Gen.GenParLoops_apple.gen_throwing_noexcept = 0%nat.
+Proof. repeat split; reflexivity. Qed.
+
 (* ++pb inside BlocksBase::D is harmless only because the compiled ProgressBar is the empty one *)
 Theorem progressbar_is_empty : gen_progressbar_empty = true.
 Proof. reflexivity. Qed.
